@@ -32,8 +32,8 @@ type MatchNumerical struct {
 func NewNumericalAggregator(config *NumericalConfig) *MatchNumerical {
 	return &MatchNumerical{
 		values: make([]float64, 0),
-		min:    math.MaxFloat64,
-		max:    -math.MaxFloat64,
+		min:    math.Inf(1),
+		max:    math.Inf(-1),
 		config: config,
 	}
 }
